@@ -36,4 +36,6 @@ void codec_reset(void);
 void codec_reset_all(void);
 extern struct op_entry ops_tables[];
 void tables_reset(void);
+extern struct op_entry ops_frame[];
+void frame_reset(void);
 #endif
